@@ -17,8 +17,15 @@ pub(crate) fn c18_viewdata_alnum_unique(s: &mut impl Src) {
     s.assume(c.is_ascii_alphanumeric() && j > c); // insert order 0..=255: the last index wins
     assert!(constants::VIEWDATA_TO_UNICODE[j as usize] != c as char);
 }
+// the decode direction of the converter is the table, all 256 codes
+pub(crate) fn c18_viewdata_to_unicode_is_table(s: &mut impl Src) {
+    let c = s.u8();
+    let r = crate::UnicodeConverter::convert_to_unicode(&CharConverter::default(), crate::AttributedChar::new(c as char, crate::TextAttribute::default()));
+    assert!(r == constants::VIEWDATA_TO_UNICODE[c as usize]);
+}
 include!("/verif/kc/harness_macro.rs");
 kc_harness! {
     c18_viewdata_alnum_identity;
     c18_viewdata_alnum_unique;
+    c18_viewdata_to_unicode_is_table;
 }
